@@ -16,7 +16,9 @@ func init() {
 		"module.Chain: harness chain object (ConcurrencyLevel drawn from {1,2,3,4,8}; transaction timeout 24h so that no timer ever decides)",
 		"Go scheduler: which parked transaction goroutine proceeds at each yield point is a tape choice; quiescence by runtime.Stack introspection at GOMAXPROCS=1",
 		"SCORE execution engines (none): contract behaviour comes from a harness-registered native system SCORE (contract.RegisterSystemScore)",
-		"scripted transactions: own transaction type registered through transaction.RegisterFactory, own handler (declares locks, reads/writes cells, may return handler errors)",
+		"scripted transactions: own transaction type registered through transaction.RegisterFactory, own handler (declares locks - also on cells it never touches -, reads/writes cells, may be empty, may fail before any access, may return handler errors)",
+		"harness asynchronous contract (contract-manager decorator returns a harness AsyncContractHandler for one address): mutates state in its own frame, then has the call context run a REAL CallHandler of a read-only or writable method of the harness system SCORE through cc.OnCall, whose answer is ok / revert / the timeout status an execution engine reports; handleResult, popFrame, cleanUpFrames, fee charge and receipt are goloop's",
+		"schedule shaping: optionally one transaction is starved after a drawn number of its turns (released only when nothing else can run), so that later transactions run and commit while an earlier one is still parked",
 		"validation phase skipped (transitions are created alreadyValidated=true, as for locally proposed blocks)",
 	}
 	assume := []string{
@@ -39,9 +41,9 @@ func init() {
 		// executing process dies is not identical to the sequential execution (which the same run performs afterwards)
 		CrashIsViolation: true,
 		Rule: "one run = one tape-drawn world (3-6 funded accounts, 2-5 script cells, step price/costs) and block (1-12 transactions: scripted read/write programs with account/world lock declarations, v3 transfers/messages, harness SCORE calls; retry-then-success handler errors) executed on a fresh base at a drawn ConcurrencyLevel under a tape-chosen goroutine schedule, and again on an identical fresh base by the sequential executor. " +
-			"Non-trivial = level > 1, both executions succeeded and at least one scheduling decision had >= 2 parked candidates; distinct = distinct event-log hash (world, block, every scheduling decision and every read/write observed).",
-		QuickProbes:     []string{"schedule_choice", "world_lock_tx", "waited_on_predecessor", "retry_then_success_concurrent"},
-		EssentialProbes: []string{"schedule_choice", "world_lock_tx", "waited_on_predecessor", "retry_then_success_concurrent", "insufficient_balance", "out_of_step", "revert_after_mutation"},
+			"Scripted programs include empty ones, ones that fail before any access and ones declaring write locks on cells they never touch; real transfers may run without the wrapper touching their accounts first (a transfer failing its balance check never accesses the recipient it locked). Non-trivial = level > 1, both executions succeeded and at least one scheduling decision had >= 2 parked candidates; distinct = distinct event-log hash (world, block, every scheduling decision and every read/write observed).",
+		QuickProbes:     []string{"schedule_choice", "world_lock_tx", "waited_on_predecessor", "retry_then_success_concurrent", "commit_waited_for_untouched_account", "untouched_write_lock_script", "untouched_write_lock_transfer", "empty_or_aborted_script", "starved_transaction"},
+		EssentialProbes: []string{"schedule_choice", "world_lock_tx", "waited_on_predecessor", "retry_then_success_concurrent", "insufficient_balance", "out_of_step", "revert_after_mutation", "commit_waited_for_untouched_account", "untouched_write_lock_script", "untouched_write_lock_transfer", "starved_transaction"},
 		Assumptions:     assume,
 		Real:            real,
 		Stubbed:         stubbed,
@@ -93,10 +95,10 @@ func init() {
 		// (finite retryable ones relax "the block must succeed" to "same outcome as the sequential executor")
 		Profiles:  []kit.ProfileSpec{{Name: "plain", Weight: 3}, {Name: "faults", Weight: 2}},
 		QuickRuns: 2400, QuickBudgetS: 45, ThoroughRuns: 400000, ThoroughBudgetS: 660,
-		Rule: "same generator biased to calls into the harness SCORE whose program writes storage, read-modify-writes storage, emits event logs, sends BTP messages, transfers value out by inter-call and then succeeds / reverts / exhausts the steps / makes an invalid inter-call / panics, with drawn (sometimes tight) step limits, plus failing transfers; retried transactions included. " +
+		Rule: "same generator biased to calls into the harness SCORE whose program writes storage, read-modify-writes storage, emits event logs, sends BTP messages, transfers value out by inter-call and then succeeds / reverts / exhausts the steps / makes an invalid inter-call / panics, with drawn (sometimes tight) step limits, plus calls to the harness asynchronous contract (mutate, then inter-call a read-only or writable method whose answer makes the call context unwind with cleanUpFrames or popFrame), plus failing transfers; retried transactions included. " +
 			"Non-trivial = at least one failed receipt; distinct = distinct event-log hash.",
-		QuickProbes:     []string{"failed_receipt", "failed_after_partial_mutation", "revert_after_mutation", "out_of_step", "success_with_event_logs"},
-		EssentialProbes: []string{"failed_receipt", "failed_after_partial_mutation", "revert_after_mutation", "out_of_step", "insufficient_balance", "success_with_event_logs", "retry_then_success"},
+		QuickProbes:     []string{"failed_receipt", "failed_after_partial_mutation", "revert_after_mutation", "out_of_step", "success_with_event_logs", "cleanup_under_readonly_callee_after_mutation", "cleanup_under_writable_callee_after_mutation", "async_writer_success"},
+		EssentialProbes: []string{"failed_receipt", "failed_after_partial_mutation", "revert_after_mutation", "out_of_step", "insufficient_balance", "success_with_event_logs", "retry_then_success", "cleanup_under_readonly_callee_after_mutation", "cleanup_under_writable_callee_after_mutation", "async_writer_success"},
 		Assumptions:     assume,
 		Real:            real,
 		Stubbed:         stubbed,
